@@ -87,8 +87,11 @@ def param_strategy(kind, cap):
             opts = [(1, 1), (2, 1), (1, 2)]
         Qa, Qb = draw(st.sampled_from(opts))
         mean = st.one_of(st.sampled_from([0.5, 2.0, 5.0, 15.0, 25.0, 30.0]), fl(0.05, 30))
-        return dict(max_useful_life=m, demand_poisson_mean_a=draw(mean), demand_poisson_mean_b=draw(mean),
-                    substitution_probability=draw(st.one_of(st.sampled_from([0.0, 1.0, 1.0, 0.5, 0.9]), fl(0, 1))),
+        heavy = draw(st.integers(0, 3)) == 0  # regime: both demands large relative to the order limits, strong substitution
+        big = st.one_of(st.sampled_from([15.0, 20.0, 25.0, 30.0]), fl(12, 30))
+        return dict(max_useful_life=m, demand_poisson_mean_a=draw(big if heavy else mean), demand_poisson_mean_b=draw(big if heavy else mean),
+                    substitution_probability=draw(st.sampled_from([1.0, 0.9, 0.8]) if heavy else
+                                                  st.one_of(st.sampled_from([0.0, 1.0, 1.0, 0.5, 0.9]), fl(0, 1))),
                     variable_order_cost_a=draw(cost), variable_order_cost_b=draw(cost), sales_price_a=draw(cost),
                     sales_price_b=draw(cost), max_order_quantity_a=Qa, max_order_quantity_b=Qb)
 
